@@ -42,13 +42,11 @@ func verifDigest() core.Digest {
 // what the statement promises after a crash: the store opens; every listed
 // blob is readable and hashes to its name; its metainfo is absent or valid.
 //
-// The open finding F1 (FINDINGS.md) is the state in which a listed name has no
-// data file (crash between creating the blob directory and the rename that
-// commits the data). With strict == false that state is filtered out by
-// Assume so that everything else stays checked; the VerifFinding… harnesses
-// run with strict == true. Finding F2 (empty or truncated metainfo sidecar)
-// was fixed in /repo (fb680c2, 48c7110: sidecars are replaced atomically) and
-// is asserted everywhere: a sidecar that exists after a crash must decode.
+// Findings F1 (listed name without data file, fixed by 869ea73) and F2 (empty
+// or truncated metainfo sidecar, fixed by fb680c2 / 48c7110) are asserted in
+// every harness; the strict flag is kept only for the recorded function names.
+// "Absent (and regenerated on demand)" is checked by running the on-demand
+// path (a backend refresh of the cached blob) whenever the metainfo is absent.
 func verifAfterRestart(strict bool) *store.CAStore {
 	cas, err := verifOpen()
 	verif.Assert("store-opens-after-crash", err == nil)
